@@ -17,6 +17,7 @@ from vf import core
 
 IO_INTERVAL = 3.0
 MOD_INTERVAL = 20.0
+SLOW_INTERVAL = 60.0
 SCRIPTS = {
     'one-close': {'closes': [25.0], 'refuse': []},
     'two-closes': {'closes': [25.0, 70.0], 'refuse': []},
@@ -37,11 +38,19 @@ def classes():
         value = Parameter('v', FloatRange(), default=0.0)
         log = None
 
+        aux = Parameter('a further polled parameter (slow poll)', FloatRange(), default=0.0)
+
         def read_value(self):
             from vf.engines import schedx
             LOG.append(('read', schedx.vtime()))
             self.communicate('V')
             return 1.0
+
+        def read_aux(self):
+            from vf.engines import schedx
+            LOG.append(('read-aux', schedx.vtime()))
+            self.communicate('X')
+            return 2.0
     _cls['Dev'] = Dev
     return _cls
 
@@ -100,7 +109,7 @@ def execute(case, prefix):
         C = classes()
         node = nodes.Node({'io': {'cls': frappy.io.StringIO, 'uri': 'tcp://dev:5000', 'timeout': {'value': 2.0},
                                   'pollinterval': {'value': IO_INTERVAL}},
-                           'm': {'cls': C['Dev'], 'io': 'io', 'pollinterval': {'value': MOD_INTERVAL}}}, start=True)
+                           'm': {'cls': C['Dev'], 'io': 'io', 'pollinterval': {'value': MOD_INTERVAL}, 'slowinterval': SLOW_INTERVAL}}, start=True)
         out['node'] = node
         io = node.secnode.modules['io']
 
@@ -150,6 +159,19 @@ def judge(case, x, out, world):
                          f'the device accepted connection {n} at {t - world["t0"]:g} s; the next read of m came at '
                          f'{(nxt[0] - world["t0"]) if nxt else None} s (module poll interval {MOD_INTERVAL:g} s, communicator {IO_INTERVAL:g} s); '
                          f'registered callbacks at the end {out.get("registered")}'))
+    # the other polled parameters are re-read as well (not only at their next regular slow-poll slot, up to slowinterval later)
+    aux = [e[1] for e in LOG if e[0] == 'read-aux']
+    for k, (_c, n, t) in enumerate(conns):
+        if n < 2:
+            continue
+        nxt = [r for r in aux if r >= t]
+        before = [r for r in aux if r < t]
+        if before and t - before[-1] <= 0.5 * SLOW_INTERVAL + 1.0:
+            continue        # read (or tried) less than half a slow interval ago: the poll loop treats it as fresh, by design
+        if not nxt or nxt[0] > t + 2 * IO_INTERVAL + 1e-6:
+            viol.append(('resume:slow-polls-not-retriggered-after-reconnect',
+                         f'the device accepted connection {n} at {t - world["t0"]:g} s; the next read of m.aux came at '
+                         f'{(nxt[0] - world["t0"]) if nxt else None} s (slow interval {SLOW_INTERVAL:g} s)'))
     nrec = len([c for c in conns if c[1] >= 2])
     if out['callbacks'] != nrec:
         viol.append(('resume:reconnect-callback-count', f'{nrec} successful reconnects, callback ran {out["callbacks"]} times'))
